@@ -86,9 +86,89 @@ def run_impl(case, outcome):
         outcome.count("session-pieces", len(case["pieces"]))
         T = "~" if case["threshold"] is None else str(case["threshold"])
         qs.append(Query("xml session %s %s" % (T, enc_list(enc_str, case["pieces"])), (" | ".join(calls), UNS), "corr"))
+    elif op == "transport":
+        qs.extend(run_transport(case, outcome))
     else:
         raise ValueError(op)
     return qs
+
+
+class _PieceReader:
+    """StreamReader / stdin stand-in that hands out exactly the given pieces, then end-of-file"""
+
+    def __init__(self, pieces, text=False):
+        self.pieces = list(pieces)
+        self.text = text
+
+    async def read(self, n):
+        import asyncio
+        await asyncio.sleep(0)
+        return self.pieces.pop(0) if self.pieces else b""
+
+    async def readline(self):
+        import asyncio
+        await asyncio.sleep(0)
+        if not self.pieces:
+            return ""
+        p = self.pieces.pop(0)
+        return p.decode("latin1") if self.text else p
+
+
+class _NullWriter:
+    def write(self, data):
+        pass
+
+    async def drain(self):
+        pass
+
+    def close(self):
+        pass
+
+    def is_closing(self):
+        return False
+
+
+def run_transport(case, outcome):
+    """the receive loop of a real connection handler (client TCP, client BLOB connection, server TCP) fed BYTE pieces: the bytes
+    are decoded piece by piece on the way into the buffer, so framing must not depend on where the pieces are cut"""
+    import asyncio
+
+    from indi.routing import Router
+    from indi.transport.client import tcp as ctcp
+    from indi.transport.server import tcp as stcp
+
+    kind, pieces = case["handler"], [bytes.fromhex(p) for p in case["pieces"]]
+    got = []
+
+    class Rec:
+        def process_message(self, message, sender=None):
+            got.append(message)
+
+        def register_client(self, c):
+            pass
+
+        def unregister_client(self, c):
+            pass
+
+    async def main():
+        if kind == "server":
+            h = stcp.ConnectionHandler(_PieceReader(pieces), _NullWriter(), Rec())
+        else:
+            h = ctcp.ConnectionHandler(_PieceReader(pieces), _NullWriter(), got.append, for_blobs=(kind == "client-blob"))
+        with time_limit(60):
+            await h.wait_for_messages()
+        return h
+
+    h = asyncio.run(main())
+    T = "~" if kind == "client-blob" else "2048"
+    text_pieces = [p.decode("latin1") for p in pieces]
+    flat = enc_list(lambda m: enc_msg(msg_view(m)), got) + " ; " + enc_str(h.buffer.data)
+    outcome.nontrivial.add((kind, tuple(case["pieces"])))
+    outcome.count("transport:" + kind)
+    return [Query("xml sessionflat %s %s" % (T, enc_list(enc_str, text_pieces)), (flat, UNS), "corr",
+                  "the receive loop (decode each piece, append, process) against the buffer model over the same characters"),
+            Query("xml sessionflat %s %s" % (T, enc_list(enc_str, ["".join(text_pieces)])), (flat, UNS), "oracle",
+                  "C02: what a connection delivers depends on how the byte stream was cut into pieces")]
 
 
 # --------------------------------------------------------------------------
@@ -277,3 +357,26 @@ def gen_session(rng, tier):
                 if sum(len(p) for p in pieces) > 2500 or len(pieces) > 400:
                     continue
                 yield {"op": "session", "threshold": case["threshold"], "pieces": pieces}
+
+
+def gen_transport(rng, tier):
+    """byte streams as a foreign peer may send them (raw Latin-1 and raw UTF-8 text, not only the library's ASCII references)
+    through the receive loops of the client, client-BLOB and server handlers, cut everywhere"""
+    thorough = tier == "thorough"
+    texts = ["Temperature (\u00b0C)", "caf\u00e9 \u00fc\u00df", "\u4e2d\u6587 \U0001d11e", "plain"]
+    streams = []
+    for i, txt in enumerate(texts):
+        body = ('<setTextVector device="D" name="P%d" state="Ok"><oneText name="e">%s</oneText></setTextVector>\n'
+                '<message device="D" message="%s"/>\n' % (i, txt, txt))
+        streams.append(body.encode("utf-8"))
+        try:
+            streams.append(body.encode("latin1"))
+        except UnicodeEncodeError:
+            pass
+    for data in streams:
+        n = len(data)
+        cutsets = [[c] for c in range(1, n, 1 if thorough else 3)] + [list(range(k, n, 7)) for k in range(1, 8)] + [list(range(1, n))]
+        for cuts in cutsets:
+            pieces = comp_buf.cuts_to_pieces(data, cuts)
+            for kind in (["client", "client-blob", "server"] if thorough or len(cuts) > 1 else [rng.choice(["client", "client-blob", "server"])]):
+                yield {"op": "transport", "handler": kind, "pieces": [p.hex() for p in pieces]}
